@@ -248,15 +248,17 @@ def r4_3(ctx):
             else:
                 ctx.bad("R4.3", fi.module, fi.qual, f"flag={fv!r}: {sorted(got)}", f"{fn}({fv!r}) has effects {sorted(got)}, expected {sorted(want)}: \\Seen and the MH `unseen` marker stop being exact complements", fi.node.lineno)
     # replace
+    from .common import pm_of
+
     rp = p.func("mbox.Mailbox._help_replace_flags")
     ctx.analysed(rp)
-    src = [norm(s, 300) for s in rp.node.body]
-    has_unseen = any(isinstance(s, ast.If) and norm(s.test) in ("'Seen' not in new_msg_seqs",) and any("add('unseen')" in norm(b) for b in s.body) for s in rp.node.body)
-    keeps_recent = any(isinstance(s, ast.If) and "'Recent' in cur_msg_seqs" == norm(s.test) and any("add('Recent')" in norm(b) for b in s.body) for s in rp.node.body)
-    removes = any(isinstance(s, ast.Assign) and isinstance(s.value, ast.BinOp) and isinstance(s.value.op, ast.Sub) and norm(s.value) == "cur_msg_seqs - new_msg_seqs" for s in rp.node.body)
-    loops = [s for s in rp.node.body if isinstance(s, ast.For)]
-    adds = any(norm(l.iter) == "new_msg_seqs" and any("self.sequences[" in norm(b) and ".add(key)" in norm(b) for b in l.body) for l in loops)
-    discs = any(norm(l.iter) == "to_remove" and any("self.sequences[" in norm(b) and ".discard(key)" in norm(b) for b in l.body) for l in loops)
+    pr = pm_of(p, rp)
+    base = pr.has("cur_msg_seqs = set(self.msg_sequences(key))") and pr.has("new_msg_seqs = set(flags)")
+    has_unseen = base and pr.has("if 'Seen' not in new_msg_seqs:\n    new_msg_seqs.add('unseen')")
+    keeps_recent = base and pr.has("if 'Recent' in cur_msg_seqs:\n    new_msg_seqs.add('Recent')")
+    removes = base and pr.has("to_remove = cur_msg_seqs - new_msg_seqs")
+    adds = base and pr.has("for seq in new_msg_seqs:\n    self.sequences[seq].add(key)")
+    discs = removes and (pr.has("for seq in to_remove:\n    self.sequences[seq].discard(key)") or pr.has("for seq2 in to_remove:\n    self.sequences[seq2].discard(key)"))
     for okv, txt in ((has_unseen, "replace: `unseen` added when Seen is absent"), (keeps_recent, "replace: Recent preserved"), (removes and adds and discs, "replace: new set added, (current - new) removed")):
         if okv:
             ctx.ok("R4.3", where(rp), txt)
@@ -275,7 +277,7 @@ def r4_3(ctx):
             r = call_recv(c)
             if not (isinstance(r, ast.Subscript) and isinstance(r.slice, ast.Constant) and r.slice.value in ("Seen", "unseen")):
                 continue
-            if "sequences" not in norm(r.value) and norm(r.value) not in ("seqs", "seq", "msg_sequences"):
+            if not isinstance(r.value, (ast.Name, ast.Attribute)):
                 continue
             sites += 1
             ctx.analysed(fi)
@@ -316,14 +318,14 @@ def r4_3(ctx):
     else:
         ctx.bad("R4.3", cn.module, cn.qual, "if 'unseen' in msg_sequences: discard('Seen') else: add('Seen')", "new messages no longer get Seen as the complement of unseen", cn.node.lineno)
     gs = p.func("mbox.Mailbox._get_sequences_update_seen")
-    txt = " ".join(norm(x, 400) for x in gs.node.body)
-    if "set(self.msg_keys) - seq['unseen']" in txt and "seq['Seen'] = set(self.msg_keys)" in txt:
+    pg = pm_of(p, gs)
+    if pg.has("new_seen = set(self.msg_keys) - seq['unseen']") and pg.has("seq['Seen'] = set(new_seen)") and pg.has("seq['Seen'] = set(self.msg_keys)"):
         ctx.ok("R4.3", where(gs), "Seen recomputed as all-keys minus unseen (and all keys when unseen is empty)")
     else:
         ctx.bad("R4.3", gs.module, gs.qual, "Seen = set(msg_keys) - unseen", "_get_sequences_update_seen no longer derives Seen as the complement of unseen", gs.node.lineno)
     # append(): Seen absent => unseen
     ap = p.func("mbox.Mailbox.append")
-    if any(isinstance(s, ast.If) and norm(s.test) == "'Seen' not in seqs" and any("append('unseen')" in norm(b) for b in s.body) for s in ap.node.body):
+    if pm_of(p, ap).has("if 'Seen' not in seqs:\n    seqs.append('unseen')"):
         ctx.ok("R4.3", where(ap), "append: `unseen` added when Seen not among the given flags")
     else:
         ctx.bad("R4.3", ap.module, ap.qual, "if 'Seen' not in seqs: seqs.append('unseen')", "APPEND without \\Seen no longer marks the message unseen", ap.node.lineno)
